@@ -53,8 +53,34 @@ def run_case(c):
             cls = P.Temperature
             units = {k: Unit(v) for k, v in TALIAS.items()}
         else:
-            cls, units = user_type(c['tkey'], c['rows'], c.get('form', 'list'), c.get('rows2'))
+            cls, units = user_type(c['tkey'], c['rows'], c.get('form', 'list'),
+                                   c.get('rows2') if c['op'] != 'treplace' else None)
         if c['op'] == 'tdoc':
+            return ev
+        if c['op'] == 'treplace':
+            # convert a pair, REPLACE the table converter by another one (same number of converters), convert again:
+            # the second answer is the new table's (or UnitConversionError if the new table lacks the pair)
+            from quantity import TableConverter, UnitConversionError
+            conv1 = list(cls.registered_converters())[0]
+            f = unq(c['a'])
+            x = cls(mk_amount([f.numerator, f.denominator], 'frac'), units[c['u']])
+            o = dict(st='err', mro=[], a=qjson(0), u='', sametype=False, b=False)
+            try:
+                x.convert(units[c['v']])
+                x == cls(1, units[c['v']])
+            except Exception:
+                pass
+            spec2 = [(units[r['f']], units[r['t']], mk_amount([unq(r['fac']).numerator, unq(r['fac']).denominator], 'frac'),
+                      mk_amount([unq(r['off']).numerator, unq(r['off']).denominator], 'frac')) for r in c['rows2']]
+            cls.remove_converter(conv1)
+            cls.register_converter(TableConverter(spec2))
+            try:
+                r = x.convert(units[c['v']])
+                name = [k for k, v in units.items() if v is r.unit]
+                o.update(st='ok', a=qjson(r.amount), u=name[0] if name else '?', sametype=type(r) is cls)
+            except Exception as exc:
+                o.update(st='err', mro=[k.__name__ for k in type(exc).__mro__])
+            ev['obs'] = o
             return ev
 
         def mk(aq, u, rep):
